@@ -109,6 +109,18 @@ class Sym:
             return ("l", l)
         return e
 
+    def origin(self, e):
+        """definition of a single-assigned named snapshot, ignoring that it may read mutable variables
+        (for def-use tracing, where the identity of the defining site matters, not value equality)"""
+        if e[0] == "l" and e[1] in self.defs and len(self.defs[e[1]]) == 1 and e[1] not in self.partial and not self.is_arg(e[1]):
+            d = self.defs[e[1]][0]
+            if d[0] == "call":
+                t = d[2]
+                c = t.get("callee", {})
+                return ("call", d[1], c.get("res") or c.get("def") or "?", tuple(self.operand(a, 1) for a in t["args"]))
+            return self.rvalue(d[3], 1)
+        return e
+
     def _reads_mutable(self, e):
         return mentions(e, lambda x: x[0] == "l" and (x[1] in self.multi or x[1] in self.mut_borrowed))
 
